@@ -1,4 +1,7 @@
 use asemon::common::*;
+
+#[global_allocator]
+static GLOBAL: asemon::allocmon::CountingAlloc = asemon::allocmon::CountingAlloc;
 use std::path::PathBuf;
 use std::time::Instant;
 
